@@ -72,7 +72,7 @@ def run_witness(repo, work, finding):
 
 def search_counterexample(repo, work, pid, failure, seed):
     """public-API observation of the property whose obligation failed"""
-    r = probe(repo, work, pid, seed, int(os.environ.get("VERIF_CEX_BUDGET", "20000")))
+    r = probe(repo, work, pid, seed, int(os.environ.get("VERIF_CEX_BUDGET", "6000")))
     if r.get("error"):
         return {"found": False, "note": r["error"][:400]}
     if r.get("found"):
